@@ -135,7 +135,6 @@ func (c *Compiler) compileTryStmt(node *parser.TryStmt) error {
 		}
 	}
 
-	c.tryCatchIndex--
 	// always emit OpSetupFinally to cleanup
 	if node.Finally != nil {
 		finallyPos = c.emit(node.Finally, OpSetupFinally)
@@ -145,6 +144,9 @@ func (c *Compiler) compileTryStmt(node *parser.TryStmt) error {
 	} else {
 		finallyPos = c.emit(node, OpSetupFinally)
 	}
+	// the handler stays installed until the end of the finally block, so
+	// jumps out of the finally block have to remove it as well.
+	c.tryCatchIndex--
 
 	c.changeOperand(optry, catchPos, finallyPos)
 	if node.Catch != nil {
